@@ -85,6 +85,11 @@ def handle : Handler := fun cmd args =>
       -- <dollar-scan steps, code as it is> <before /repo 657287d> <executed scans> <steps of the rejected `$` scans>
       -- <text length> <cdStepsOld(pieces) == dlStepsOld: 1/0, 2 = not applicable>
       pure s!"{dlCost ev} {dlCost evOld} {ev.length} {rej} {b.length} {absOk}"
+  | "c06cap", [c, ks] => some do
+      -- <accepted body rows> <autocompleted cells> <cells in the source> for a table `c` columns wide and rows of the given widths
+      match c.toNat?, (ks.splitOn ",").mapM (·.toNat?) with
+      | some c, some ks => pure s!"{acceptedRows c 0 ks} {autocompleteRows c 0 ks} {presentCells c 0 ks}"
+      | _, _ => .error "bad-args"
   | "c06cd", [n, p] => some do
       match n.toNat?, p.toNat? with
       | some n, some p => pure (toString (cdStepsOld (List.replicate n p)))
